@@ -666,6 +666,17 @@ func SyncScenario(t *Tape) *Scenario {
 	sc.MaxEvents = 60000
 	// (drawn last so that the meaning of the earlier scenario draws is unchanged)
 	sc.HonourStop = t.Chance(SScen, 1, 2)
+	if sc.MaxTPB == 0 && t.Chance(SScen, 1, 3) {
+		// pools that differ: one node misses most gossiped transactions and has to ask for the
+		// proposal's transactions (the fault-free application supplies them within delta).  Not
+		// with the dynamic block time extension: a primary whose pool stays empty while the
+		// backups' pools fill waits for the maximum, the backups time out after twice the
+		// minimum - lost gossip is a lost message, outside the precondition of C08 and C16.
+		sc.PoorNode = 1 + int(t.Draw(SScen, uint64(sc.NIdent)))
+		if sc.TxRate == 0 {
+			sc.TxRate = 1 + int(t.Draw(SScen, 3))
+		}
+	}
 	return sc
 }
 
@@ -674,6 +685,7 @@ func SyncScenario(t *Tape) *Scenario {
 // the minimum, inside the extended wait, bursts.
 func DynScenario(t *Tape) *Scenario {
 	sc := SyncScenario(t)
+	sc.PoorNode = 0 // (see SyncScenario: no mempool-poor node with the extension)
 	sc.NIdent = 0
 	n := drawN(t, 1, 7)
 	sc.NIdent = n
